@@ -131,6 +131,16 @@ func (g *gen) optBool() *bool {
 	return &v
 }
 
+// bigBlob: mostly small; now and then a blob whose base64 form makes a single SDP line cross the usual
+// line-buffer thresholds (4 KiB, 64 KiB, 1 MiB-ish): a description is a byte string, not a line-limited text.
+func (g *gen) bigBlob(maxLen int) []byte {
+	if g.r.Intn(25) == 0 {
+		n := pick(g, []int{3050, 3072, 3100, 49100, 49152, 49200, 70000})
+		return g.r.Bytes(n + g.r.Intn(3))
+	}
+	return g.r.Bytes(g.r.Intn(maxLen))
+}
+
 func (g *gen) blobNoStart(maxLen int) []byte {
 	b := g.r.Bytes(g.r.Intn(maxLen + 1))
 	if bytes.HasPrefix(b, start4) {
@@ -306,7 +316,7 @@ func (g *gen) wfFormat(kind int, isApp bool) format.Format {
 		}
 		return &format.Opus{PayloadTyp: g.dynPT(), ChannelCount: ch}
 	case 8:
-		return &format.Vorbis{PayloadTyp: g.dynPT(), SampleRate: g.intEdge(1, max31), ChannelCount: g.intEdge(1, max31), Configuration: g.r.Bytes(g.r.Intn(40))}
+		return &format.Vorbis{PayloadTyp: g.dynPT(), SampleRate: g.intEdge(1, max31), ChannelCount: g.intEdge(1, max31), Configuration: g.bigBlob(40)}
 	case 9:
 		f := &format.MPEG4Audio{PayloadTyp: g.dynPT(), ProfileLevelID: g.intEdge(1, max31), Config: g.asc(), SizeLength: g.intEdge(1, 100)}
 		if g.r.Bool() {
